@@ -163,7 +163,8 @@ def invariants_cover_final_state(idx: Index, rep: Report, rule: str) -> None:
     du = DefUse(cfg)
     n = 0
     for node, c in cfg_nodes_with_call(cfg, "append"):
-        if norm(c.func.value) != "durative_conditions" or not c.args or not isinstance(c.args[0], ast.Tuple) or len(c.args[0].elts) != 4:
+        # the list of timed conditions is recognised by what is appended to it: (interval, …, condition, instance)
+        if not isinstance(c.func.value, ast.Name) or not c.args or not isinstance(c.args[0], ast.Tuple) or len(c.args[0].elts) != 4:
             continue
         interval, _, cond, ai = c.args[0].elts
         if not (isinstance(ai, ast.Constant) and ai.value is None):
